@@ -279,7 +279,7 @@ def run(ctx):
                         ctx.violation('c08-layers-vs-model', f'layered order differs from the model: impl {txt} model {m} [{name}]', replay=rep, found_input=False)
                     if [sorted(l) for l in hook_txt] != [sorted(int(n.id) for n in lay) for lay in impl_layers]:
                         ctx.violation('c08-layers-run', f'the layers actually run differ from topological_order_layered [{name}]', replay=rep, found_input=False)
-        if ctx.n_new() >= 3:
+        if ctx.n_new(with_input_only=True) >= 3:
             return
     if ctx.n_new() == 0:
         history_stream(ctx, quick)
